@@ -25,7 +25,7 @@ def build(ctx, only_step=None):
     src = lambda *n: [os.path.join(S, x) for x in n]
     jobs = []
     a512 = ctx.hardware_avx512
-    jobs.append(('c18_ntt', [os.path.join(H, 'c03_ntt.cpp')] + src('ntt_goldilocks.cpp', 'goldilocks_base_field.cpp'), san_flags(ctx), ['-lgmp']))
+    jobs.append(('c18_ntt', [os.path.join(H, 'c03_ntt.cpp')] + src('goldilocks_base_field.cpp'), san_flags(ctx), ['-lgmp']))
     jobs.append(('c18_hist', [os.path.join(H, 'c19_history.cpp')] + src('ntt_goldilocks.cpp', 'goldilocks_base_field.cpp'), san_flags(ctx), ['-lgmp']))
     for name, main in (('c18_sponge', 'c07_sponge.cpp'), ('c18_merkle', 'c08_merkle.cpp'), ('c18_poseidon', 'c06_poseidon.cpp')):
         jobs.append((name + '_avx2', [os.path.join(H, main)] + src('poseidon_goldilocks.cpp', 'goldilocks_base_field.cpp'), san_flags(ctx), ['-lgmp']))
